@@ -20,7 +20,7 @@ BUDGET = {
 }
 REQUIRED_PROBES = {"quick": ("short_write", "eagain", "size_above_buffer", "paced_reader"),
                    "thorough": ("short_write", "eagain", "size_above_buffer", "paced_reader", "reset_mid_message",
-                                "size_ge_1mib")}
+                                "size_ge_1mib", "hard_error_during_send")}
 EVIDENCE = {
     "level": "exploration",
     "rule": ("seeded message sizes (1 byte .. 3 MiB, around the socket buffer size), socket buffer sizes, reader "
@@ -187,12 +187,17 @@ def run(sim, plan):
     if any(n >= (1 << 20) - 1 for n, _ in plan["sends"]):
         sim.probe("size_ge_1mib")
 
+    hard_errors = []   # sends during which socket.send() raised a hard error (EPIPE/ECONNRESET)
+
     def sender():
         for n, seed in plan["sends"]:
             blob = random.Random(seed).randbytes(n)
             if path == "raw":
+                e0 = k.faults.get("epipe", 0)
                 ok = conn.send_data(blob)
                 results.append((blob, ok))
+                if k.faults.get("epipe", 0) > e0:
+                    hard_errors.append((n, ok))
             else:
                 func = sf.SecsS07F03({"PPID": "p", "PPBODY": var.Binary(blob)})
                 ok = ep.proto.send_stream_function(func)
@@ -242,6 +247,11 @@ def run(sim, plan):
         if (parser.error or parser.pending) and not state.get("reset_done"):
             sim.violation("C10.R1", f"peer read a byte stream that is not a sequence of frames: error={parser.error}, "
                           f"{parser.pending} trailing bytes", sig="C10.R1|stream-corrupt")
+    for n_, ok_ in hard_errors:
+        sim.probe("hard_error_during_send")
+        if ok_:
+            sim.violation("C10.R2", f"socket.send() raised EPIPE/ECONNRESET during a {n_}-byte send_data call, which "
+                          "nevertheless reported success", sig="C10.R2|error-reported-as-success")
     ok_concat = b"".join(b for b, ok in results if ok)
     if state.get("reset_done"):
         # reset batch: whatever was read must be a prefix of what the senders handed over, in order
